@@ -138,6 +138,8 @@ vector<uint8_t> RadioTapWriter::build_padding_vector(const uint8_t* last_ptr,
 void RadioTapWriter::update_paddings(const vector<uint8_t>& paddings, uint32_t offset) {
     size_t i = 0;
     while (i != paddings.size()) {
+        // offset always points to the buffer position of paddings[i]
+        const size_t first = i;
         // Skip everything that doesn't need padding
         while (i != paddings.size() && paddings[i] == 1) {
             ++i;
@@ -150,7 +152,7 @@ void RadioTapWriter::update_paddings(const vector<uint8_t>& paddings, uint32_t o
         if (i == paddings.size()) {
             break;
         }
-        offset += start;
+        offset += start - first;
         const uint8_t needed_padding = calculate_padding(paddings[i], offset + sizeof(uint32_t));
         const size_t existing_padding = i - start;
         // Remove padding if there's too much
@@ -166,6 +168,7 @@ void RadioTapWriter::update_paddings(const vector<uint8_t>& paddings, uint32_t o
         }
         offset += i - start;
         ++i;
+        ++offset;
     }
 }
 
